@@ -23,7 +23,7 @@ RULE = ('geometry (page size in {8,16,25,32,50,64,1024}, buffer pages 1..4/10, f
 ASSUMPTIONS = ['bootloader protocol: 0x10 info, 0x12 mapping, 0x14 load buffer (page,u16 offset), 0x18 write flash '
                '(buffer page, flash page, count) answered by (target, 0x18, done, error)',
                'a retransmitted write-flash command re-executes the same copy (idempotent)']
-REQUIRED = ['mon.flashes_completed', 'mon.images_compared', 'mon.load_buffer_packets', 'mon.too_large_refused',
+REQUIRED = ['mon.reply_scripts_with_a_refusal_that_carries_no_error_code', 'mon.flashes_completed', 'mon.images_compared', 'mon.load_buffer_packets', 'mon.too_large_refused',
             'mon.reply_scripts', 'mon.aborted_after_failure', 'mon.page_override', 'mon.exact_multiples',
             'mon.flashes_with_progress_callback', 'mon.late_answer_then_failing_write',
             'mon.second_flash_with_the_same_bootloader', 'mon.flash_at_the_start_page_after_one_at_an_override_page', 'mon.unanswered_write_on_a_busy_downlink',
@@ -114,8 +114,9 @@ class Target:
                 return
             if action == 'drop_request':
                 return
-            if action == 'neg':
-                self.out.append(bytes([self.tid, 0x18, 0, 5]))
+            if action in ('neg', 'neg0'):
+                # refused: done flag 0 (the error byte says why - or nothing: 0)
+                self.out.append(bytes([self.tid, 0x18, 0, 5 if action == 'neg' else 0]))
                 return
             if fpage + count > self.fp or bpage + count > self.bp:
                 self.bad.append(('write beyond flash or buffer', bpage, fpage, count))
@@ -233,7 +234,7 @@ def flash_once(ctx, tid, ps, bp, fp, sp, length, override, script, rnd, label):
                 if a in ('ok',):
                     outcome = 'ok'
                     break
-                if a == 'neg':
+                if a in ('neg', 'neg0'):
                     outcome = 'neg'
                     break
             if outcome != 'ok':
@@ -690,7 +691,7 @@ def run(desc, ctx):
         sp = rnd.randrange(0, max(1, fp - 3 * bp - 1))
         length = rnd.choice((3 * bp * ps, 3 * bp * ps - 1, 2 * bp * ps + 1, bp * ps + ps))
         length = min(length, (fp - sp) * ps)
-        acts = ('ok', 'drop', 'drop_request', 'neg')
+        acts = ('ok', 'drop', 'drop_request', 'neg', 'neg0')
         n = 0
         for ci in range(3):
             for a0 in acts:
@@ -701,6 +702,8 @@ def run(desc, ctx):
                             for at in range(2, 8):
                                 script[(ci, at)] = 'drop'
                         ctx.count('mon.reply_scripts')
+                        if 'neg0' in (a0, a1):
+                            ctx.count('mon.reply_scripts_with_a_refusal_that_carries_no_error_code')
                         flash_once(ctx, 0xFF, ps, bp, fp, sp, length, None, script, rnd, 'faults')
                         n += 1
         # a write command that is never answered while unrelated packets keep arriving
